@@ -12,15 +12,18 @@ W = os.environ.get("MATRIX_WORKER", "")
 WT = "/var/tmp/scratch/wt-matrix" + W
 OUT = "/var/tmp/scratch/matrix-out" + W
 INSTANCE = ["C03", "C04", "C05"]
-# package directory -> function-level checks that load it (engine/driver/props.go)
-BY_DIR = {
-    "template_funcs": ["C16"],
-    "template": ["C01", "C02", "C07", "C08", "C09", "C10", "C12", "C13", "C14", "C15"],
-    "config": ["C07", "C08", "C09", "C10", "C11", "C13", "C18"],
-    "internal/cmd": ["C07", "C08", "C09", "C10", "C18", "C19"],
-    "internal": ["C01", "C02", "C07", "C08", "C09", "C10", "C12", "C13", "C14"],
-    "tools": ["C20"],
-}
+# A change in package P can alter only the obligations of functions of P (verification is modular: other
+# packages see P's contracts, not its bodies), so the checks that can be affected are the properties that
+# P's contract file mentions, plus the instance-wise checks for anything on the generation path.
+import re
+def props_of_dir(d):
+    f = f"/repo/{d}/zz_verif_contracts.go"
+    if not os.path.exists(f):
+        return None
+    return sorted(set(re.findall(r"C\d\d", open(f).read())))
+BY_DIR = {d: props_of_dir(d) for d in ["template_funcs", "template", "config", "internal/cmd", "internal", "tools/cmd"]}
+BY_DIR["internal"] = sorted(set(BY_DIR["internal"]) | {"C08"})   # RootApp.Run inlines helpers of internal/ and config/
+BY_DIR["tools"] = BY_DIR["tools/cmd"]
 
 def affected(files, allprops):
     props = set()
@@ -63,7 +66,7 @@ def main():
             files = subprocess.run(["git", "-C", WT, "diff", "--name-only"], capture_output=True, text=True).stdout.split()
             props = allprops if allchecks else affected(files, allprops)
             caught, undec, clean = [], [], []
-            env = dict(os.environ, VERIF_REPO=WT, VERIF_OUT=OUT)
+            env = dict(os.environ, VERIF_REPO=WT, VERIF_OUT=OUT, VERIF_MAXRETRY="3")
             for p in props:
                 r = subprocess.run(["/verif/bin/govc", "check", p], capture_output=True, text=True, env=env)
                 if r.returncode != 0:
